@@ -113,6 +113,9 @@ class FnAnalysis:
                             val = getattr(n, "value", None)
                             if val is not None and strict_names(self.aliases, val) & tnames:
                                 ev.append(("loop_restore", cell, inames, a))
+                            elif isinstance(val, ast.Subscript) and isinstance(val.value, ast.Name) and isinstance(val.slice, ast.Name) and val.slice.id in tnames:
+                                # for k, obj in enumerate(objs): obj.cell = snapshot[k]
+                                ev.append(("loop_restore", cell, inames | {val.value.id}, a))
                     for n in walk_stmt(sub):
                         if isinstance(n, ast.Call):
                             cells, cands, how = self.eff.call_writes(fn, n)
